@@ -12,6 +12,9 @@
    pairs); if there is no such quote it closes at the LAST quote of the text (whose backslash is then re-read as an
    ordinary character); no quote at all: no match  (scan_words).
 
+   Section E does the same for the bracketed variable name  ^\s*\[\s*((?:\\\]|[^\]])+)\s*\]  (scanner [scanv], the
+   white-space run after the bracket with its backtracking, variable_ex_answer) and its un-escape pass.
+
    Everything is generic in the quote character q (q <> 92, q not white space) and instantiated at 39 and 34 on the
    generated constants of Gen/Regexes.v: a changed pattern breaks the proofs. *)
 From Coq Require Import Lia.
